@@ -2,8 +2,8 @@
 # run every registered check at the given tier, summary to work/run_all_<tier>.log
 cd "$(dirname "$0")/.."
 tier=${1:-quick}
-export VERIF_WORK=/verif/work/$tier
-mkdir -p $VERIF_WORK
+export VERIF_WORK=${VERIF_WORK:-$(pwd)/work/$tier}
+mkdir -p $VERIF_WORK work
 out=work/run_all_$tier.log
 : > $out
 for p in $(cat lib/registered.txt); do
